@@ -45,7 +45,15 @@ func c07Generic(w *run.W, fam string, pr impl.Project, e *impl.ErrObs, wantTrace
 			w.Violation("C07", "line-column", fmt.Sprintf("[%s] error %q at index %d of %q reports line %d column %d; the index is on line %d column %d\n%s", fam, e.Msg, e.Index, e.File, e.Line, e.Col, line, col, trunc(showProject(pr), 700)), detail)
 			return
 		}
-		if e.Quote != quote {
+		// the quote is the line's text; leading blanks may or may not be removed (an all-blank cut of a long line is kept as it is)
+		rawLine := content[int(e.Index)-(col-1):]
+		if k := strings.IndexAny(rawLine, "\r\n"); k >= 0 {
+			rawLine = rawLine[:k]
+		}
+		if len(rawLine) > 200 {
+			rawLine = rawLine[:197] + "..."
+		}
+		if e.Quote != quote && e.Quote != rawLine {
 			w.Violation("C07", "quote", fmt.Sprintf("[%s] error %q quote %q, the line reads %q\n%s", fam, e.Msg, e.Quote, quote, trunc(showProject(pr), 700)), detail)
 			return
 		}
@@ -176,7 +184,12 @@ func workC07Graphs(w *run.W) {
 		for ff := 0; ff < n; ff++ { // file that holds the fault
 			for fi, fk := range c07Faults {
 				for pos := 0; pos <= len(graph[ff]); pos++ { // fault before include #pos
-					for ei, eol := range []string{"\n", "\r\n", "\r"} {
+					for ei, eol := range []string{"\n", "\r\n", "\r", "deep\n", "long\n"} {
+						// "deep": the fault line is indented by 230 blanks; "long": it carries a 260-byte annotation (quote rule)
+						variant := ""
+						if strings.HasSuffix(eol, "\n") && len(eol) > 2 {
+							variant, eol = eol[:4], "\n"
+						}
 						idx++
 						if !w.Mine(idx) {
 							continue
@@ -199,8 +212,15 @@ func workC07Graphs(w *run.W) {
 								if i == ff && k == pos {
 									lines = append(lines, "# fault follows")
 									faultLine = len(lines) + 1
-									for _, fl := range strings.Split(fk.Line, "\n") {
-										lines = append(lines, "  "+fl)
+									for fi, fl := range strings.Split(fk.Line, "\n") {
+										switch {
+										case variant == "deep":
+											lines = append(lines, strings.Repeat(" ", 230)+fl)
+										case variant == "long" && fi == 0 && !strings.Contains(fl, "(") && fk.Name != "scan-error":
+											lines = append(lines, "  "+fl+" # "+strings.Repeat("long comment ", 20))
+										default:
+											lines = append(lines, "  "+fl)
+										}
 									}
 								}
 								if k < len(graph[i]) {
@@ -323,7 +343,7 @@ func workC07Faults(w *run.W) {
 		l0.Reset()
 		base := d.ToTree(&l0)
 		for _, fc := range faults(base) {
-			for _, pl := range []int{-1, 0, 2} {
+			for _, pl := range []int{-1, 0, 2, 3} {
 				tree := fc.Tree
 				if pl >= 0 {
 					if strings.HasPrefix(fc.Class, "jsight-") {
@@ -333,7 +353,13 @@ func workC07Faults(w *run.W) {
 					if ti <= 0 || tree.Nodes[ti].Kw == "MACRO" || tree.Nodes[ti].Kw == "TAG" {
 						continue
 					}
-					tree = applyMove(tree, move{I: ti, J: ti, Kind: pl}, 9)
+					if pl == 3 {
+						// the MACRO that holds the fault is defined in an included file, the PASTE stays in the root
+						tree = applyMove(tree, move{I: ti, J: ti, Kind: 0}, 9)
+						tree = applyMove(tree, move{I: 1, J: 1, Kind: 2}, 8)
+					} else {
+						tree = applyMove(tree, move{I: ti, J: ti, Kind: pl}, 9)
+					}
 				}
 				for _, g := range []Global{canonGlobal, {"\r\n", "\t", true}, {"\r", "    ", false}} {
 					l := g.Layout()
@@ -349,10 +375,11 @@ func workC07Faults(w *run.W) {
 					w.Nontrivial(showProject(pr))
 					var trace []string
 					check := false
-					if len(pr.Files) == 1 {
-						check = true // single file: Error() must be the bare message
-					} else if loc, ok := r.Locs[faultID]; ok && b.Err.File == loc.File && loc.File != "root.jst" {
-						// fault inside the included piece: one INCLUDE at top level of the root
+					switch {
+					case len(pr.Files) == 1 || b.Err.File == "root.jst":
+						check = true // the offending directive is in the root file: Error() must be the bare message
+					default:
+						// located inside the included piece: exactly one INCLUDE, at the top level of the root
 						for _, x := range r.Lex["root.jst"] {
 							if x.Type == "K" && x.Text == "INCLUDE" {
 								il, _, _ := ref.Locate(pr.Files["root.jst"], x.Begin)
